@@ -67,9 +67,16 @@ class FnV:
         return "FnV(%s)" % self.name
 
 
-class ClosureV:
+class ClosureV(Agg):
+    """closure value: its environment is an aggregate of the captures"""
+
     def __init__(self, span, captures=None):
-        self.span, self.captures = span, captures or []
+        Agg.__init__(self, captures or [], "closure")
+        self.span = span
+
+    @property
+    def captures(self):
+        return self.fields
 
     def __repr__(self):
         return "ClosureV(%s)" % self.span
@@ -247,8 +254,8 @@ class Executor:
                 if isinstance(val, RefV):
                     base = st.frames[val.frame].get(val.local, UNINIT)
                     val = self._get(st, val.frame, base, val.proj, f)
-                elif isinstance(val, (SeqV, Opaque)):
-                    pass      # &[u8] / &str represented by the value itself
+                elif isinstance(val, (SeqV, Opaque, ClosureV)):
+                    pass      # &[u8] / &str / &closure represented by the value itself
                 else:
                     raise Unsupported("deref of %r" % (val,))
             elif p[0] == "downcast":
